@@ -1059,6 +1059,11 @@ func (x *Exec) specQuant(env *SpecEnv, n *EQuant) TV {
 			case !n.Forall:
 				hoist = append(hoist, e)
 			default:
+				if bf, ok := x.bornFacts[e.S]; ok && x.assumeBornAxiom(env.state(), bf) {
+					// stated universally for the whole array instead of as an antecedent over the
+					// bound variable
+					continue
+				}
 				keep = append(keep, e)
 			}
 		}
